@@ -586,6 +586,25 @@ def run_spec(args: dict, sandbox: str) -> dict:
         log.append(f"cell {c['id']} h={c['h']} files={hashlib.sha256(json.dumps(results[-1]['files'], sort_keys=True).encode()).hexdigest()[:16]}")
     a, b = results
     violations = pair_violation(spec, a, b)
+    if not violations and any(c.get("history") for c in cells):
+        # Not reproduced in fresh interpreters.  A difference that needs the state of a LONG-LIVED process (what an identity-
+        # keyed or otherwise accumulated cache has piled up by the time the warmed worker forks the run) is still a
+        # difference: execute the two cells once more the way the search did, in warmed worker interpreters with the cells'
+        # own hash seeds and locales.  Same spec, same code path as the search; the replay takes this route too.
+        from sim import pool as poolmod
+
+        with poolmod.Pool([cells[0]["h"], cells[1]["h"]], per_worker_env=[cells[0].get("penv") or {}, cells[1].get("penv") or {}]) as wp:
+            jobs = []
+            for c in cells:
+                need = {k: v for k, v in spec["docs"].items() if k == "self" or k in (c.get("history") or [])}
+                jobs.append({"fn": FN_SEED, "args": {"cell": c, "docs": need, "meta": spec.get("meta", "poetry"), "config": spec.get("config") or {}}, "h": c["h"], "timeout": 180})
+            envs = wp.map(jobs)
+        if all(e.get("status") == "ok" for e in envs):
+            wa, wb = envs[0]["result"], envs[1]["result"]
+            violations = pair_violation(spec, wa, wb)
+            for v in violations:
+                v["detail"] += " [in warmed worker interpreters; fresh interpreters agree: the difference depends on the state of a long-lived process]"
+            log.append(f"warm re-execution: {len(violations)} violation(s)")
     return {"violations": violations, "spec": spec, "faults": {}, "probes": {}, "states": [], "nontrivial_keys": [], "fingerprint": rng.fingerprint(log), "sim_time": 0.0}
 
 
